@@ -3,7 +3,63 @@ import common
 from props import system_common
 
 
+ATOMS = ["pkg", "test_m.py", "TestK", "Inner", "test_f", "[a]", "[a::b]", "[x@y]", "[1-2]", "@", "::", "]", "[", "grp", "g1", "a b", ".", "/"]
+
+
+def split_checks(out, tier):
+    """the three _split_scope functions on adversarial ids: model vs implementation, plus an
+    independent oracle for well-formed ids (what the documentation promises)"""
+    import random
+    from common import Corr, Model, run_jobs
+    rnd = random.Random(out.seed + 606)
+    n = 600 if tier == "quick" else 20000
+    cases = []
+    for _ in range(n):
+        kind = rnd.choice(["loadscope", "loadfile", "loadgroup"])
+        r = rnd.random()
+        if r < 0.5:      # well-formed: path::[Class::]*func[param][@group]
+            path = "/".join(rnd.choice(["pkg", "sub", "test_m.py", "t@x.py"]) for _ in range(rnd.randint(1, 2)))
+            classes = [rnd.choice(["TestK", "Inner"]) for _ in range(rnd.choice([0, 0, 1, 2]))]
+            func = rnd.choice(["test_f", "test_g"]) + rnd.choice(["", "[a]", "[1-2]", "[x@y]", "[alice@example.org]", "[a::b]"])
+            nid = "::".join([path] + classes + [func])
+            grp = rnd.choice([None, "grp", "g1", "a b", "a]b"]) if kind == "loadgroup" else None
+            if grp:
+                nid += "@" + grp
+            exp = None
+            if kind == "loadfile":
+                exp = path
+            elif kind == "loadscope":
+                exp = "::".join([path] + classes)
+            elif kind == "loadgroup":
+                exp = grp if grp else nid
+            cases.append((kind, nid, exp))
+        else:            # adversarial soup
+            nid = "".join(rnd.choice(ATOMS) for _ in range(rnd.randint(0, 6)))
+            cases.append((kind, nid, None))
+    res = run_jobs("drive_sched.py", [{"kind": "split", "cases": [[k, s] for k, s, _ in cases[i:i + 200]]} for i in range(0, len(cases), 200)], nproc=6)
+    flat = [x for chunk in res for x in (chunk if isinstance(chunk, list) else [])]
+    model = Model()
+    corr = Corr(out, model, rnd)
+    corr.compare("_split_scope (loadscope/loadfile/loadgroup)", "split", [[k, s] for k, s, _ in cases], flat,
+                 nontrivial=lambda i, o: o != i[1])
+    for (k, nid, exp), got in zip(cases, flat):
+        if exp is not None and got != exp:
+            if k == "loadscope" and "[" in nid and "::" in nid.split("[", 1)[1]:
+                cls = "param-id-with-::"
+            elif k == "loadgroup" and exp != nid and "]" in exp:
+                cls = "group-name-with-]"
+            elif k == "loadgroup" and exp == nid and "@" in nid:
+                cls = "unmarked-id-with-@"
+            else:
+                cls = "other"
+            out.report({"kind": "group-key-wrong", "function": k, "class": cls},
+                       {"nodeid": nid, "expected": exp, "got": got}, {"function": k, "nodeid": nid})
+    corr.finish_incoq("C06-split")
+    model.close()
+
+
 def run(out: common.Outcome):
+    split_checks(out, out.tier)
     system_common.standard_run(
         out, "C06", [("nocrash", 0.5), ("crash", 0.5)], ["groups", "exactly_once", "internal_error"],
         nontrivial=lambda r: len(r["cfg"]["coll"]) >= 3,
